@@ -51,7 +51,10 @@ RULE = ("documents pre + NAME ':' value + post; value = lead + values joined by 
         "case with a non-empty input")
 TRUSTED = ["model coq/Repro/ListView.v is a hand transcription of the list-view code (regex leaves ws_finditer / "
            "comma_finditer for _RE_WHITESPACE_SEPARATED_WORD_LIST / _RE_COMMA_SEPARATED_WORD_LIST under finditer, "
-           "incl. the empty-match/must-advance rule); tied to the code only by this correspondence",
+           "incl. the empty-match/must-advance rule); tied to the code by this correspondence and, for the control flow of "
+           "the three tokenizer functions and of the Deb822ParsedTokenList / ValueReference methods, by regeneration "
+           "(coq/Props/C11Tie.v: equalities resp. refinement theorems over C09's regenerated LinkedList); the regex leaves, "
+           "the value factory as a whole, interpret (__init__ + stream parsers) and _update_field stay hand-modelled",
            "the re-parse inside _update_field is modelled by a recogniser of 'NAME:content' (ListView.reparse), "
            "compared with parse_deb822_file on its own (CReparse cases) and through every edited session",
            "generator laziness is collapsed (the tokenizer's assert fires on the first pull; every other failure "
@@ -779,6 +782,218 @@ def _gen_tr_tok(repo):
                 or [m.name for m in n.body if isinstance(m, ast.FunctionDef)] != meths:
             raise extract.ExtractError("token class %s changed its bases or methods: trp_mk_tok models the previous class" % cls)
     return _P.translate_module(repo, TR_MODULE)
+
+
+# ---------------------------------------------------------------------------
+# Stage 2 — the methods of Deb822ParsedTokenList and ValueReference (lib/debian/_deb822_repro/parsing.py), regenerated into
+# coq/Gen/TrListView.v on every run (METHOD + HEAP MODE).  self._token_list is a debian/_util.py LinkedList, which C09 already
+# regenerates (coq/Gen/TrLinkedList.v): nothing of that is translated again — the list object is the record of its attributes
+# and its methods are C09's regenerated functions run on (heap, record) through C10's adapters (coq/Repro/StructTrPrims.v:
+# ll_run / ll_read).  A token or element is a reference into a store of the model's items (coq/Repro/ListViewTrPrims.v).
+# coq/Repro/ListViewTie.v proves, for every state that REPRESENTS a view of the model (the linked structure holds the
+# references of the items in order — up to the stale _size that _remove_node leaves behind —, the store maps each reference to
+# its item, the two attributes agree), that each regenerated method ends in a state that represents the result of the model
+# operation that `agree` runs through run_session / step (Repro/ListView.v), with the same exception kind and, after an
+# exception, the state the model says; statements in coq/Props/C11Tie.v.
+_T_HEAP = ("coq", "heap")
+_T_IT = ("coq", "teref")
+_T_ITS = ("coq", "testore")
+_T_LL = ("coq", "llobj")
+_T_REF = ("ref", "LinkedListNode")
+_T_OREF = ("option", _T_REF)
+_T_K = ("coq", "lkind")
+_T_CLS = ("coq", "trp_cls")
+_T_VREF = ("coq", "vref")
+_T_LF = ("literal", "'\\n'", "tt")
+_V_S = [("<heap>", "hp", _T_HEAP), ("<tokens and elements>", "its", _T_ITS), ("self._token_list", "s_ll", _T_LL),
+        ("self._changed", "s_changed", "bool"), ("self.__continuation_line_char", "s_cont", ("option", "str"))]
+_V_K = [("k", _T_K)]
+_V_G = _V_K + [(v, t) for _, v, t in _V_S]
+_V_V = [v for _, v, _ in _V_S]
+_V_GV = "k hp its s_ll s_changed s_cont"
+_PTL = "Deb822ParsedTokenList."
+
+
+def _t_sub(coq, args, ret, sub, monadic=False):
+    c = _P.Call(coq, args, ret, monadic)
+    c.substate = list(sub)
+    return c
+
+
+def _v_w(coq, name, params, ret, **kw):
+    return _P.Fun(coq, _PTL + name, params, ret, skip_first=True, state=_V_S, ghost=_V_K, **kw)
+
+
+def _v_r(coq, name, params, ret, **kw):
+    return _P.Fun(coq, _PTL + name, params, ret, skip_first=True, ghost=_V_G, **kw)
+
+
+def _t_newtok(kind):
+    return _t_sub("trp_new_tok %s" % kind, ["str"], _T_IT, ["its"])
+
+
+_f_cont = _v_w("tr_v_continuation_line_char", "_continuation_line_char", [], ("option", "str"),
+               locals={"char": ("option", "str"), "token": _T_IT})
+_f_cont.narrow = True
+_f_append_value = _v_w("tr_v_append_value", "append_value", [("vt", _T_IT)], "unit",
+                       locals={"value_parts": _T_LL, "needs_separator": "bool", "stype": _T_CLS, "vtype": _T_CLS, "t": _T_IT})
+_f_append_value.alias_state = {"value_parts": "self._token_list"}
+_f_remove_node = _v_w("tr_v_remove_node", "_remove_node", [("node_to_remove", _T_REF)], "unit",
+                      locals={"vtype": _T_CLS, "first_value_on_lhs": _T_OREF, "first_value_on_rhs": _T_OREF,
+                              "comment_before_previous_value": "bool", "comment_before_next_value": "bool",
+                              "past_node": _T_REF, "past_token": _T_IT, "future_node": _T_REF, "future_token": _T_IT,
+                              "delete_lhs_of_node": "bool", "first_remain_lhs": _T_OREF, "first_remain_rhs": _T_OREF})
+_f_remove_node.join_defines = True
+
+_f_remove = _v_w("tr_v_remove", "remove", [("value", "str")], "unit",
+                 locals={"vtype": _T_CLS, "node": _T_REF, "node_to_remove": _T_REF})
+_f_remove.join_defines = True      # node_to_remove is bound before the only `break`; the else-block raises
+
+_T_WREF = ("coq", "wref")
+_R_S = _V_S + [("self._node", "r_node", ("option", _T_WREF))]
+_R_G = _V_G + [("r_node", ("option", _T_WREF))]
+_R_CALLS = {
+    "self._node": _P.Call("trp_vref_deref hp s_ll r_node", [], _T_OREF),       # calling the weak reference
+    "self._resolve_node": _P.Call("tr_r_resolve_node k hp its s_ll s_changed s_cont r_node", [], _T_REF, True),
+    "self._removal_handler": _t_sub("tr_v_remove_node k", [_T_REF], "unit", _V_V),      # = view._remove_node
+    "self._mutation_notifier": _t_sub("tr_v_mark_changed k", [], "unit", _V_V),          # = view._mark_changed
+}
+
+
+def _r_fun(coq, qual, params, ret, write, **kw):
+    f = _P.Fun(coq, "ValueReference." + qual, params, ret, skip_first=True,
+               state=_R_S if write else None, ghost=_V_K if write else _R_G, **kw)
+    f.calls = dict(_R_CALLS)
+    return f
+
+
+_r_resolve = _r_fun("tr_r_resolve_node", "_resolve_node", [], _T_REF, False, locals={"node": _T_OREF})
+_r_resolve.narrow = True
+
+TR_MODULE_VIEW = _P.Module(
+    "TrListView", "lib/debian/_deb822_repro/parsing.py",
+    funs=[
+        _v_r("tr_v_value_parts", "value_parts", [], _T_IT, generator=True, locals={"v": _T_IT}),
+        _v_r("tr_v_iter", "__iter__", [], "str", generator=True, locals={"v": _T_IT}),
+        _v_w("tr_v_mark_changed", "_mark_changed", [], "unit"),
+        _v_r("tr_v_previous_is_newline", "_previous_is_newline", [], "bool", locals={"tail": ("option", _T_IT)}),
+        _v_w("tr_v_append_newline", "append_newline", [], "unit"),
+        _f_cont,
+        _v_w("tr_v_append_cont_if_necessary", "_append_continuation_line_token_if_necessary", [], "unit",
+             locals={"tail": ("option", _T_IT)}),
+        _v_w("tr_v_append_separator", "append_separator", [("space_after_separator", "bool")], "unit",
+             locals={"separator_token": _T_IT}),
+        _f_append_value,
+        _v_w("tr_v_append", "append", [("value", "str")], "unit", locals={"vt": _T_IT}),
+        _v_w("tr_v_append_comment", "append_comment", [("comment_text", "str")], "unit",
+             locals={"tail": ("option", _T_IT), "comment_token": _T_IT}),
+        _v_w("tr_v_replace", "replace", [("orig_value", "str"), ("new_value", "str")], "unit",
+             locals={"vtype": _T_CLS, "node": _T_REF}),
+        _f_remove_node,
+        _f_remove,
+        _v_r("tr_v_iter_value_references", "iter_value_references", [], _T_VREF, generator=True, locals={"n": _T_REF}),
+        _r_resolve,
+        _r_fun("tr_r_value_get", "value@getter", [], "str", False),
+        _r_fun("tr_r_value_set", "value@setter", [("new_value", "str")], "unit", True),
+        _r_fun("tr_r_remove", "remove", [], "unit", True),
+    ],
+    calls={
+        "isinstance": _P.Call("trp_isinstance k its", [_T_IT, _T_CLS], "bool"),
+        "self._render": _P.Call("trp_render its", [_T_IT], "str", True),
+        "self._value_factory": _t_sub("trp_value_factory k", ["str"], _T_IT, ["its"]),
+        "self._default_separator_factory": _t_sub("trp_new_separator k", [], _T_IT, ["its"]),
+        "self.value_parts": _P.Call("tr_v_value_parts " + _V_GV, [], ("list", _T_IT), True),
+        "Deb822ParsedTokenList.value_parts": _P.Call("tr_v_value_parts " + _V_GV, [], ("list", _T_IT), True),
+        "Deb822ParsedTokenList._continuation_line_char": _t_sub("tr_v_continuation_line_char k", [], ("option", "str"), _V_V),
+        "self._previous_is_newline": _P.Call("tr_v_previous_is_newline " + _V_GV, [], "bool", True),
+        "self.append_newline": _t_sub("tr_v_append_newline k", [], "unit", _V_V),
+        "self._append_continuation_line_token_if_necessary": _t_sub("tr_v_append_cont_if_necessary k", [], "unit", _V_V),
+        "self.append_separator": _t_sub("(fun hp_ its_ ll_ ch_ co_ => tr_v_append_separator k hp_ its_ ll_ ch_ co_ true)", [], "unit", _V_V),
+        "self.append_value": _t_sub("tr_v_append_value k", [_T_IT], "unit", _V_V),
+        "self._remove_node": _t_sub("tr_v_remove_node k", [_T_REF], "unit", _V_V),
+        "self._token_list.append": _t_sub("trp_ll_append", [_T_IT], _T_REF, ["hp", "s_ll"]),
+        "self._token_list.clear": _t_sub("trp_ll_clear", [], "unit", ["hp", "s_ll"]),
+        "self._token_list.iter_nodes": _P.Call("trp_ll_iter_nodes hp s_ll", [], ("list", _T_REF), True),
+        "value_parts.append": _t_sub("trp_ll_append", [_T_IT], _T_REF, ["hp", "s_ll"]),
+        "reversed": _P.Call("trp_ll_reversed hp", [_T_LL], ("list", _T_IT), True),
+        "<llobj>.__iter__": _P.Call("trp_ll_iter hp", [_T_LL], ("list", _T_IT), True),
+        "<llobj>.__bool__": _P.Call("trp_ll_bool", [_T_LL], "bool"),
+        "<llobj>.@head_node=": _P.Call("trp_ll_set_head", [_T_LL, _T_OREF], _T_LL),
+        "<llobj>.@tail_node=": _P.Call("trp_ll_set_tail", [_T_LL, _T_OREF], _T_LL),
+        "<llobj>.@tail": _P.Call("trp_ll_tail_value hp", [_T_LL], ("option", _T_IT), True),
+        "<teref>.convert_to_text": _P.Call("trp_te_text its", [_T_IT], "str", True),
+        "<teref>.@text": _P.Call("trp_te_text its", [_T_IT], "str", True),
+        "<teref>.@is_whitespace": _P.Call("trp_te_is_whitespace its", [_T_IT], "bool", True),
+        "<teref>.@is_comment": _P.Call("trp_te_is_comment its", [_T_IT], "bool", True),
+        "<str>.endswith": _P.Call("trp_endswith_lf", ["str", _T_LF], "bool"),
+        "_format_comment": _P.Call("format_comment", ["str"], "str", True),
+        "Deb822WhitespaceToken": _t_newtok("KWs"),
+        "Deb822ValueContinuationToken": _t_sub("trp_new_cont_tok", [("option", "str")], _T_IT, ["its"]),
+        "Deb822CommentToken": _t_newtok("KCom"),
+        "Deb822NewlineAfterValueToken": _t_sub("trp_new_newline_tok", [], _T_IT, ["its"]),
+        "<LinkedListNode>.iter_previous": _t_kw(_P.Call("trp_iter_previous_skip hp", [_T_REF, ("literal", "True", "")],
+                                                        ("list", _T_REF), True), [None, "skip_current"]),
+        "<LinkedListNode>.iter_next": _t_kw(_P.Call("trp_iter_next_skip hp", [_T_REF, ("literal", "True", "")],
+                                                    ("list", _T_REF), True), [None, "skip_current"]),
+        "LinkedListNode.link_nodes": _t_sub("tr_link_nodes", [_T_OREF, _T_OREF], "unit", ["hp"]),
+        "cast": [_P.Call("", [("literal", "'LinkedListNode[VE]'", ""), _T_REF], _T_REF),
+                 _P.Call("", [("literal", "'LinkedListNode[TokenOrElement]'", ""), _T_REF], _T_REF)],
+        "ValueReference": _P.Call("trp_new_vref", [_T_REF, ("literal", "self._render", ""), ("literal", "self._value_factory", ""),
+                                                   ("literal", "self._remove_node", ""), ("literal", "self._mark_changed", "")],
+                                  _T_VREF),
+    },
+    consts={"self._token_list": ("s_ll", _T_LL), "self._vtype": ("trp_VTYPE", _T_CLS), "self._stype": ("trp_STYPE", _T_CLS),
+            "Deb822ValueContinuationToken": ("trp_CONT", _T_CLS), "Deb822Token": ("trp_TOKEN", _T_CLS),
+            "self._mutation_notifier": ("trp_notifier", ("option", "unit")), "self._node": ("r_node", ("option", _T_WREF))},
+    imports=["Dict.Common", "Dict.Heap", "Dict.TrPrims", "Gen.TrLinkedList", "Repro.StructTrPrims", "Repro.ListView",
+             "Repro.ListTrPrims", "Repro.ListViewTrPrims"])
+TR_MODULE_VIEW.heap = _P.Heap("hp", _T_HEAP, {
+    "LinkedListNode": _P.HeapClass("id", fields={"value": (_T_IT, "trp_get_value", "trp_set_value"),
+                                                 "next_node": (_T_OREF, "trp_get_next", "trp_set_next")},
+                                   props={"previous_node": (_P.Call("tr_node_get_prev hp", [_T_REF], _T_OREF, True), None)},
+                                   eqb="Pos.eqb", opt_eqb="oid_eqb")},
+    assume="trp_assume_some")
+TR_MODULE_VIEW.properties = {"self.value_parts": "Deb822ParsedTokenList.value_parts",
+                             "self._continuation_line_char": "Deb822ParsedTokenList._continuation_line_char"}
+
+# Code that the primitives of coq/Repro/ListViewTrPrims.v stand for and that the translator does not see, asserted as source
+# text (sha256 of ast.unparse, 16 hex digits): a change fails the translation closed.
+_T_ASSERTED_VIEW = {
+    "lib/debian/_deb822_repro/parsing.py": {
+        "ValueReference.__init__": "f1c09b9952c834b6",                      # trp_new_vref: the _node slot; the four callables
+        "Deb822ParsedTokenList.__init__": "fab831a54e5bd802",               # which attribute holds what
+        "_parser_to_value_factory": "244f868cc1d9c786",                     # trp_value_factory: the model's value_factory
+        "_format_comment": "8bf7f48fd4cef07f",                              # format_comment
+        "_parsed_value_render_factory": "bcd37b2fb6412142",                 # trp_render: render
+        "ListInterpretation.__init__": "af6b5d3c9f684d86",
+        "ListInterpretation._high_level_interpretation": "db984ba679c37954",
+        "Deb822ParsedValueElement.__init__": "6920a5591bb635a9",
+        "Deb822ParsedValueElement.convert_to_text": "5a2459dafa76e383",     # trp_te_text / the shared text cache of render
+        "Deb822ParsedValueElement.convert_to_text_without_comments": "058d1cfed6f5ace2"},
+    "lib/debian/_deb822_repro/tokens.py": {
+        "Deb822Token.text": "3263261f1980a331", "Deb822Token.convert_to_text": "b57de50fd9f0b785",
+        "Deb822Token.is_whitespace": "c7129c8b7ffdd245", "Deb822Token.is_comment": "08dee44c21e24a8a",
+        "Deb822WhitespaceToken.is_whitespace": "c89920c30d35eed6", "Deb822CommentToken.is_comment": "229e3b5a7cf67dec"},
+    "lib/debian/_util.py": {
+        "LinkedListNode.iter_previous": "2360658220a87cde",                 # trp_iter_previous_skip
+        "LinkedListNode.iter_next": "9aab30369d4c1aa6",                     # trp_iter_next_skip (over C09's regenerated loop)
+        "LinkedList.__reversed__": "074912c392c70ceb"}}                     # trp_ll_reversed (C10)
+# the two interpretations: vtype / stype / default separator / render factory (trp_VTYPE, trp_STYPE, trp_new_separator)
+_T_ASSERTED_CONSTS = {"LIST_SPACE_SEPARATED_INTERPRETATION": "3771f2fad1ebafc2",
+                      "LIST_COMMA_SEPARATED_INTERPRETATION": "1d68e9fbc2a07baf"}
+
+
+@extract.register("TrListView")
+def _gen_tr_view(repo):
+    import ast
+    import hashlib
+    _t_assert_sources(repo, _T_ASSERTED_VIEW)
+    tree = extract._parse(repo, "lib/debian/_deb822_repro/parsing.py")
+    for name, sha in _T_ASSERTED_CONSTS.items():
+        if hashlib.sha256(ast.unparse(_P.find_value(tree, name)).encode()).hexdigest()[:16] != sha:
+            raise extract.ExtractError("%s changed: the class tests and the separator factory of "
+                                       "coq/Repro/ListViewTrPrims.v model the previous definition" % name)
+    return _P.translate_module(repo, TR_MODULE_VIEW)
 
 
 import os as _os    # noqa: E402
